@@ -87,6 +87,8 @@ def match_pattern(pat, sc, trace, b):
             return False
     if "schedule_kind" in pat and sc.get("kind") != pat["schedule_kind"]:
         return False
+    if "phase" in pat and phase_of(trace) not in pat["phase"]:
+        return False
     if "family" in pat and not sc["tid"].startswith(pat["family"]):
         return False
     if "action_in" in pat:
@@ -301,7 +303,43 @@ def fam_keepalive(rng, tier):
     return out
 
 
-FAMILIES = {"C13": [("delivery", fam_delivery)], "C14": [("endings", fam_endings)], "C15": [("reconnect", fam_reconnect)],
+def phase_of(trace):
+    """where the run was when the application's close() came in (observable events only)"""
+    seen_open = False
+    established = False
+    for e in trace:
+        if e["ev"] == "dial" and e.get("outcome") == "established":
+            established = True
+        if e["ev"] == "cb" and e.get("name") in ("open", "reconnect"):
+            seen_open = True
+        if e["ev"] == "app_close":
+            return "running" if seen_open else ("handshake_done" if established else "connecting")
+    return "no_close"
+
+
+LP_BASES = [
+    {"conns": [{"events": [[100, ["text", "m"]], [5000, ["close", 1000, []]]]}], "run": {}},
+    {"conns": [{"events": [[100, ["frag", 1, ["a", "b"]]], [100, ["ping", []]]], "pong": 100}], "run": {"ping_interval": 3, "ping_timeout": 1}, "horizon": 20000},
+    {"conns": [{"events": [[100, ["eof"]]]}, {"events": [[100, ["text", "again"]], [3000, ["close", 1000, []]]]}], "run": {"reconnect": 1}, "horizon": 20000},
+]
+
+
+def fam_line_preempt(rng, tier):
+    """C14: close() from a second thread preempting the main thread at (every n-th) source line of
+    the library (sys.settrace), the user thread then runs until it blocks or finishes."""
+    out = []
+    n = 0
+    step = 11 if tier == "quick" else 1
+    for bi, base in enumerate(LP_BASES):
+        log, _ = appworld.run_app(dict(base, line_preempt=10 ** 9))
+        total = [e for e in log if e["ev"] == "lines_total"][0]["n"]
+        for k in range(1 + (rng.randrange(step) if step > 1 else 0), total + 1, step):
+            n += 1
+            out.append(dict(base, tid="lp%d_%d" % (bi, k), line_preempt=k, kind="line_preempt"))
+    return out
+
+
+FAMILIES = {"C13": [("delivery", fam_delivery)], "C14": [("endings", fam_endings), ("line_preemption", fam_line_preempt)], "C15": [("reconnect", fam_reconnect), ("line_preemption_reconnect", lambda rng, tier: [x for x in fam_line_preempt(rng, tier) if x["tid"].startswith("lp2_")])],
             "C16": [("keepalive", fam_keepalive)]}
 
 
